@@ -55,7 +55,7 @@ def FactsOK : Bool :=
   C35.hasherTable == ["sha1=sha1.New", "sha256=sha256.New", "crc32=newCRC32", "crc64=newCRC64", "blake3=newBlake3", "xxhash=newXXHash"] &&
   C35.defaultHashCheckers == ["sha1", "sha256", "blake3"] && C35.defaultHashFunction == "sha256" &&
   C35.ruleHashCoversHashes &&
-  -- the configured checkers reach the stamp / cache key of every target that declares hashes (fix 9c3fe2b: rule hash)
+  -- the configured checkers reach the stamp / cache key of every target that declares hashes (fix 477defb: rule hash)
   (C35.ruleHashCoversHashCheckers || C35.configHashCoversHashCheckers) &&
   -- the records the model runs with are the ones the theorems are about
   genU == UFacts.asCoded && genC == CFacts.asCoded && genS == SFacts.asCoded
